@@ -21,6 +21,16 @@ def cases(tier, seed, args):
     rng = np.random.default_rng(seed + 8)
     q = tier == 'quick'
     out = []
+    if args.get('prop') == 'C14':
+        # EM with an inline aligner (with and without a source-activity mask): the align step only permutes
+        for i in range(8 if q else 48):
+            sc = mmd.scenario(rng, 'cacgmm', tier)
+            sc.update(regime=['regular', 'separable'][i % 2], init='soft', dtype='float64', iterations=2 + i % 3, saliency=bool(i % 4 == 1),
+                      K=2 + i % 3, D=2, N=int(rng.integers(8, 12)), L=[[3], [5]][i % 2], wca=[(-3,), (-3, -1)][(i // 2) % 2], wca_type='tuple',
+                      aligner=True, sam=bool(i % 2 == 0))
+            sc.pop('wca_pos', None)
+            out.append(dict(t='emtrace', **sc))
+        return out
     n = 28 if q else 280
     for i in range(n):
         kind = ml.KINDS[i % 7]
@@ -130,6 +140,12 @@ def _emtrace(case):
     if case['saliency']:
         sal = rng.integers(1, 4, size=(*L, N)).astype(float) * rng.choice([1.0, 0.5])
         opts['saliency'] = sal
+    if case.get('sam'):
+        sam = rng.random((*L, K, N)) < 0.75
+        sam[..., 0] = True
+        # at least one class stays active everywhere (no all-inactive observation: that corner is a recorded C09 finding)
+        sam[..., 0, :] = True
+        opts['source_activity_mask'] = sam
     aligner = None
     if case.get('aligner'):
         aligner = GreedyPermutationAlignment(similarity_metric='cos')
